@@ -260,4 +260,99 @@ theorem select_map (f : ℚ → ℚ) (ts : List ℚ) (b : List Bool) :
       · simp [ih]
       · exact ih bs
 
+/-! ### exchanging the two series on the rounded path (lag `0`) -/
+
+section swap
+variable (fl : ℚ → ℚ) (hodd : ∀ x, fl (-x) = -(fl x))
+include hodd
+
+theorem dst2R_swap (p q : Ev) : dst2R fl q p = -(dst2R fl p q) := by
+  simp only [dst2R]
+  have e : q.1 - p.1 = -(p.1 - q.1) := by ring
+  rw [e, hodd]
+  ring
+
+theorem axyR_swap (tm : Option ℚ) (p q : Ev) : axyR fl tm q p = ayxR fl tm p q := by
+  simp only [axyR, ayxR, dst2R_swap fl hodd p q, tau2_swap tm p q]
+  have h1 : 0 < -(dst2R fl p q) ↔ dst2R fl p q < 0 := neg_pos
+  have h2 : -(dst2R fl p q) ≤ tau2 tm p q ↔ -(tau2 tm p q) ≤ dst2R fl p q := neg_le
+  simp only [h1, h2]
+
+theorem ayxR_swap (tm : Option ℚ) (p q : Ev) : ayxR fl tm q p = axyR fl tm p q := by
+  simp only [axyR, ayxR, dst2R_swap fl hodd p q, tau2_swap tm p q]
+  have h1 : -(dst2R fl p q) < 0 ↔ 0 < dst2R fl p q := neg_lt_zero
+  have h2 : -(tau2 tm p q) ≤ -(dst2R fl p q) ↔ dst2R fl p q ≤ tau2 tm p q := neg_le_neg_iff
+  simp only [h1, h2]
+
+theorem eqtR_swap (p q : Ev) : eqtR fl q p = eqtR fl p q := by
+  simp only [eqtR, dst2R_swap fl hodd p q, neg_eq_zero]
+
+theorem dblxyR_swap (tm : Option ℚ) (xs ys : List Ev) :
+    dblxyR fl tm ys xs = dblyxR fl tm xs ys := by
+  unfold dblxyR dblyxR
+  rw [← count2_swap]
+  apply count2_congr
+  intro p q
+  have h1 : (fun q' => ayxR fl tm q q') = (fun p' => axyR fl tm p' q) := by
+    funext x; exact ayxR_swap fl hodd tm x q
+  have h2 : (fun p' => ayxR fl tm p' p) = (fun q' => axyR fl tm p q') := by
+    funext x; exact ayxR_swap fl hodd tm p x
+  rw [axyR_swap fl hodd tm p q, h1, h2, Bool.or_comm]
+
+theorem dblyxR_swap (tm : Option ℚ) (xs ys : List Ev) :
+    dblyxR fl tm ys xs = dblxyR fl tm xs ys := by
+  unfold dblxyR dblyxR
+  rw [← count2_swap]
+  apply count2_congr
+  intro p q
+  have h1 : (fun q' => axyR fl tm q q') = (fun p' => ayxR fl tm p' q) := by
+    funext x; exact axyR_swap fl hodd tm x q
+  have h2 : (fun p' => axyR fl tm p' p) = (fun q' => ayxR fl tm p q') := by
+    funext x; exact axyR_swap fl hodd tm p x
+  rw [ayxR_swap fl hodd tm p q, h1, h2, Bool.or_comm]
+
+theorem countXYR_swap (tm : Option ℚ) (xs ys : List Ev) :
+    countXYR fl tm ys xs = countYXR fl tm xs ys := by
+  unfold countXYR countYXR
+  rw [dblxyR_swap fl hodd, count2_flip (axyR fl tm) (ayxR fl tm) xs ys (axyR_swap fl hodd tm),
+    count2_flip (eqtR fl) (eqtR fl) xs ys (eqtR_swap fl hodd)]
+
+theorem countYXR_swap (tm : Option ℚ) (xs ys : List Ev) :
+    countYXR fl tm ys xs = countXYR fl tm xs ys := by
+  unfold countXYR countYXR
+  rw [dblyxR_swap fl hodd, count2_flip (ayxR fl tm) (axyR fl tm) xs ys (ayxR_swap fl hodd tm),
+    count2_flip (eqtR fl) (eqtR fl) xs ys (eqtR_swap fl hodd)]
+
+/-- **exchange on the rounded path at lag `0`**: for an odd rounding (`fl(-x) = -fl(x)`) that
+leaves the event times themselves unchanged (they are doubles), exchanging the series exchanges
+the two counts — whatever the subtractions inside round to -/
+theorem esR_exchange_lag0 (ex ey : List ℚ) (tm : Option ℚ)
+    (hid : ∀ t ∈ ex ++ ey, fl (t + 0) = t) :
+    esR fl ey ex tm 0 = match esR fl ex ey tm 0 with
+      | .nan => .nan | .zero => .zero | .val a b n => .val b a n := by
+  have hx : (ex.map fun t => fl (t + 0)) = ex := by
+    conv => rhs; rw [← List.map_id ex]
+    exact List.map_congr_left (fun t ht => hid t (List.mem_append_left _ ht))
+  have hy : (ey.map fun t => fl (t + 0)) = ey := by
+    conv => rhs; rw [← List.map_id ey]
+    exact List.map_congr_left (fun t ht => hid t (List.mem_append_right _ ht))
+  unfold esR
+  simp only [hx, hy]
+  by_cases h1 : ex.length = 0 ∨ ey.length = 0
+  · have h1' : ey.length = 0 ∨ ex.length = 0 := h1.symm
+    rw [if_pos h1, if_pos h1']
+  · have h1' : ¬(ey.length = 0 ∨ ex.length = 0) := fun h => h1 h.symm
+    by_cases h2 : ex.length = 1 ∨ ex.length = 2 ∨ ey.length = 1 ∨ ey.length = 2
+    · have h2' : ey.length = 1 ∨ ey.length = 2 ∨ ex.length = 1 ∨ ex.length = 2 := by omega
+      rw [if_neg h1, if_neg h1', if_pos h2, if_pos h2']
+    · have h2' : ¬(ey.length = 1 ∨ ey.length = 2 ∨ ex.length = 1 ∨ ex.length = 2) := by omega
+      rw [if_neg h1, if_neg h1', if_neg h2, if_neg h2']
+      show ESRes.val _ _ _ = ESRes.val _ _ _
+      congr 1
+      · exact countXYR_swap fl hodd tm _ _
+      · exact countYXR_swap fl hodd tm _ _
+      · exact Nat.mul_comm _ _
+
+end swap
+
 end Pyunicorn.Events
